@@ -328,7 +328,25 @@ pub fn emit_recv(recvs: &[Recv], r: &Recv, out: &mut String) {
                 // receivers with magic fields: defaults are expressed through helper fns that build the
                 // ordinary fields only; the derive fills the magic ones itself, so only `from_ident` and
                 // container defaults need a full value — built from a parsed dummy element
-                if r.cdefault != Def::None || r.from_ident {
+                if r.cdefault == Def::Trait && r.tr == Trait::TypeParam && r.attrs_field.is_none() {
+                    // a hand-written fallback instance: tagged values in the ordinary fields, and in the magic
+                    // ones something no input ever says
+                    let mut s = format!("{name} {{ ");
+                    for (k, f) in fields.iter().enumerate() {
+                        s.push_str(&format!("{}: {}, ", f.rust, field_sentinel_expr(recvs, f, Tag::ContainerDefault, k)));
+                    }
+                    for m in &r.magic {
+                        let (n, _) = magic_field_decl(recvs, r, m);
+                        let v = match m.kind {
+                            MagicKind::Ident => "syn::parse_quote!(vf_fallback_ident)",
+                            MagicKind::Default => "Some(syn::parse_quote!((u8, u8, u8)))",
+                            _ => "::core::default::Default::default()",
+                        };
+                        s.push_str(&format!("{n}: {v}, "));
+                    }
+                    s.push('}');
+                    out.push_str(&format!("impl ::core::default::Default for {name} {{ fn default() -> Self {{ {s} }} }}\n"));
+                } else if r.cdefault != Def::None || r.from_ident {
                     out.push_str(&format!("// (container default / from_ident not generated together with magic fields)\n"));
                 }
             }
